@@ -101,16 +101,38 @@ def dec_read(m, cfg, f, args, t):
     cur = st.extra.get('cur')
     if cur is not None:
         _consume(st, ('READ1', cur))
+        _bump_pos(m, st, args, Int.const(1))
         return ok(Int.sym(cur))
     n = len(_consumed(st))
     s = m.new_sym(st, 'b%d' % n, 'u8')
 
     def okm(s_):
         _consume(s_, ('READ1', s))
+        _bump_pos(m, s_, args, Int.const(1))
 
     def errm(s_):
         s_.events.append(('EOI', 'read'))
     return Fork([(okm, ok(Int.sym(s))), (errm, err(eoi_error()))])
+
+
+def _bump_pos(m, st, args, delta):
+    """keep the decoder's own `pos` field in step with the bytes consumed: code above the input primitives may read the field
+    directly (`let p = self.pos; ..; self.pos - p`) instead of calling position()"""
+    from .absint import lin_add
+    r = args[0] if args else None
+    if not isinstance(r, Ref):
+        return
+    fp = r.path + (('f', 1, 'pos'),)
+    try:
+        v = m.read_path(st, r.key, fp)
+    except Exception:
+        return
+    if delta is None:
+        m.write_path(st, r.key, fp, Atom(fresh('pos'), {'s': 'usize', 'k': 'int:usize'}))
+    elif isinstance(v, Int) and isinstance(delta, Int):
+        m.write_path(st, r.key, fp, lin_add(v, delta, 1))
+    else:
+        m.write_path(st, r.key, fp, Atom(fresh('pos'), {'s': 'usize', 'k': 'int:usize'}))
 
 
 def dec_current(m, cfg, f, args, t):
@@ -157,6 +179,7 @@ def dec_read_array(m, cfg, f, args, t):
 
     def okm(s_):
         _consume(s_, ('READN', n, s))
+        _bump_pos(m, s_, args, Int.const(n))
 
     def errm(s_):
         s_.events.append(('EOI', 'read_array'))
@@ -170,6 +193,7 @@ def dec_read_slice(m, cfg, f, args, t):
 
     def okm(s_):
         _consume(s_, ('READSLICE', n))
+        _bump_pos(m, s_, args, n if isinstance(n, Int) else None)
 
     def errm(s_):
         s_.events.append(('EOI', 'read_slice'))
@@ -215,8 +239,11 @@ def dec_set_position(m, cfg, f, args, t):
             return UNIT
         if d.is_const() and d.c == 1 and st.extra.get('cur') is not None:
             _consume(st, ('READ1', st.extra['cur']))   # steps over the byte that was just inspected
+            _bump_pos(m, st, args, Int.const(1))
             return UNIT
     st.events.append(('SETPOS', p))
+    if isinstance(args[0], Ref):
+        m.write_path(st, args[0].key, args[0].path + (('f', 1, 'pos'),), p)
     st.extra.pop('cur', None)
     st.extra.pop('peek', None)
     return UNIT
